@@ -9,7 +9,7 @@
                             (users = passwd: login -> home directory)
    [run_section e users c]  environment after the assignments of section c *)
 From Coq Require Import List ZArith Bool Lia.
-From Cylc Require Import Base.Util Model.Shell Proofs.ShellProofs.
+From Cylc Require Import Base.Util Model.Shell Proofs.ShellProofs Model.EnvFilter Proofs.EnvFilterProofs.
 Import ListNotations.
 Open Scope Z_scope.
 
@@ -103,6 +103,41 @@ Theorem c41_later_refers_earlier : forall e users pre mid x vx y a b e2,
   Ok (update e2 y (a ++ vx ++ b)).
 Proof. exact later_refers_earlier. Qed.
 
+(* ---- before the writer: the environment the job gets is the configured one,
+   in configuration order (WorkflowConfig.filter_env; Model/EnvFilter.v) ---- *)
+
+(* filter_env keeps a variable iff it is in the include list (or the include list
+   is empty) and not in the exclude list, and does nothing else: the result is the
+   configured environment with the other entries removed ... *)
+Theorem c41_filter_env_is_filter : forall incl excl e,
+  filter_env incl excl e = filter (fun kv => keep incl excl (fst kv)) e.
+Proof. exact filter_env_is_filter. Qed.
+
+(* ... i.e. an order-preserving sub-sequence of the configured environment
+   (whatever the order of the names in the include / exclude lists) ... *)
+Theorem c41_filter_env_subsequence : forall incl excl e,
+  sublist (filter_env incl excl e) e.
+Proof. exact filter_env_sublist. Qed.
+
+(* ... containing exactly the included-and-not-excluded variables, values untouched ... *)
+Theorem c41_filter_env_exact : forall incl excl e k v,
+  In (k, v) (filter_env incl excl e) <-> In (k, v) e /\ keep incl excl k = true.
+Proof. exact filter_env_In. Qed.
+
+(* ... so two kept variables stay in their configured relative order, which is what
+   c41_later_refers_earlier needs. *)
+Theorem c41_filter_env_keeps_order : forall incl excl l1 a l2 b l3,
+  keep incl excl (fst a) = true -> keep incl excl (fst b) = true ->
+  filter_env incl excl (l1 ++ a :: l2 ++ b :: l3) =
+  filter_env incl excl l1 ++ a :: filter_env incl excl l2 ++ b :: filter_env incl excl l3.
+Proof. exact filter_env_order. Qed.
+
+(* Inheriting a family's environment keeps the order of the variables already
+   present (overridden ones keep their place) and appends the new ones. *)
+Theorem c41_inherit_keeps_order : forall source target,
+  exists extra, map fst (merge target source) = map fst target ++ extra.
+Proof. exact merge_keys. Qed.
+
 (* ---------- non-vacuity ---------- *)
 (* A = "two words #x='q'" ;  B = "~/my dir" ;  C = "pre-${A}-post"  with HOME=/h *)
 Definition ex_A : str := [116;119;111;32;119;111;114;100;115;32;35;120;61;39;113;39].
@@ -125,4 +160,18 @@ Proof. vm_compute. reflexivity. Qed.
 (* the hypotheses exclude real cases: a '$' makes the value non-literal *)
 Example c41_example_dollar :
   plain_str [36;65] = false /\ eval_word [([65], [120])] [] (definition [36;65]) = Ok [120].
+Proof. vm_compute. auto. Qed.
+
+(* the seeded scenario: root defines BASE, NAME, SCRATCH, LABEL; t adds OUT = ${BASE}/${NAME}
+   and includes OUT, LABEL, NAME, BASE (include order differs from configuration order):
+   the job gets BASE, NAME, LABEL, OUT in that order and OUT expands from BASE and NAME *)
+Definition fx_root : ns :=
+  {| n_env := Some [([66], [47;100]); ([78], [102]); ([83], [120]); ([76], [108])];
+     n_incl := None; n_excl := None |}.
+Definition fx_t : ns :=
+  {| n_env := Some [([79], [36;123;66;125;47;36;123;78;125])];
+     n_incl := Some [[79]; [76]; [78]; [66]]; n_excl := None |}.
+Example c41_filter_example :
+  map fst (task_env [fx_root; fx_t]) = [[66]; [78]; [76]; [79]] /\
+  rmap (fun e => lookup e [79]) (run_section [] [] (task_env [fx_root; fx_t])) = Ok [47;100;47;102].
 Proof. vm_compute. auto. Qed.
